@@ -85,7 +85,11 @@ def make_observable(rng, nmax=60, force_texp_ok=False):
         cl = [cl] if dim == 1 else cl
         for c in cl:
             o = o + float(np.round(rng.uniform(-1, 1), 2)) * c
+        COV_BUFFERS[id(o)] = cov              # the caller's own array: reused (overwritten) by the caller before the analysis runs
     return o, [k for _, k in parts]
+
+
+COV_BUFFERS = {}
 
 
 def snapshot_params():
@@ -118,6 +122,9 @@ def args_record(kw):
 def gm_case(cid, o, kw):
     """run gamma_method(**kw) on o and record the case"""
     before = project_obs(o)
+    buf = COV_BUFFERS.pop(id(o), None)
+    if buf is not None:
+        buf *= 2.5                            # J Sigma J^T is taken with the covariance the observable was built from
     glob, dct = env_record()
     try:
         with np.errstate(all='ignore'):
